@@ -394,7 +394,7 @@ def zoo_piece(rng, quotes=True, tags=True, special=True):
         n = rng.range(2, 6)
         return "\n".join(rng.choice(["-", "=", "~", "_"]) * rng.range(2, 9) for _ in range(n))
     if quotes:
-        return " ".join(rng.choice(['"a-b"', '"|"', '"x\\"y"', '""', '"一二"', '"<&>"', '"&#60;"', '"&lt;&#x3c;"', "--", "+", "ab", '3"', '\\"x"', '"']) for _ in range(rng.range(1, 4)))
+        return " ".join(rng.choice(['"a-b"', '"|"', '"x\\"y"', '""', '"一二"', '"<&>"', '"&#60;"', '"&lt;&#x3c;"', '"a”|b"', '"“--"', '“x”', '"«-»"', "--", "+", "ab", '3"', '\\"x"', '"']) for _ in range(rng.range(1, 4)))
     return label(rng, special)
 
 
@@ -694,3 +694,26 @@ def sibling(text, rng):
     if "# Legend:" in text and "fill:" in text:
         return text.replace("fill:", "stroke:", 1)
     return None
+
+
+def around(rng, chars, n):
+    """small drawings around the given characters (the ones whose table entries changed): the character alone, with one
+    neighbour in each of the eight positions, in random 3x3 neighbourhoods, in the first column / row, in a box, on a line"""
+    nb = "-|+/\\_.'`*~:"
+    out = []
+    for c in chars:
+        out += [c, c * 3, c + "\n" + c, "-" + c + "-", "|\n" + c + "\n|", box(3, 1, inner=[" " + c])]
+        for d in nb:
+            for (dx, dy) in ((-1, -1), (0, -1), (1, -1), (-1, 0), (1, 0), (-1, 1), (0, 1), (1, 1)):
+                rows = [[" "] * 3 for _ in range(3)]
+                rows[1][1] = c
+                rows[1 + dy][1 + dx] = d
+                out.append("\n".join("".join(r).rstrip() for r in rows))
+        for _ in range(n):
+            w, h = rng.range(2, 4), rng.range(2, 3)
+            rows = [[rng.choice(nb) if rng.chance(1, 2) else " " for _ in range(w)] for _ in range(h)]
+            cx, cy = (0, rng.below(h)) if rng.chance(1, 3) else (rng.below(w), 0) if rng.chance(1, 2) else (rng.below(w), rng.below(h))
+            rows[cy][cx] = c
+            t = "\n".join("".join(r).rstrip() for r in rows)
+            out.append(t if rng.chance(2, 3) else place(t, rng.below(3), rng.below(2)))
+    return out
